@@ -515,7 +515,8 @@ func (this *BlockDecompressor) Decompress() (int, uint64) {
 
 		cancel <- true
 		close(cancel)
-		close(results)
+		// Do not close 'results': after an early exit, workers still running would
+		// panic sending their result (the channel is buffered: they never block).
 	}
 
 	after := time.Now()
